@@ -8,12 +8,15 @@ import (
 	"path/filepath"
 	"reflect"
 	"strings"
+	"sync"
 
 	"github.com/pgavlin/dawn/internal/project"
 	"github.com/pgavlin/dawn/verifharness/core"
 )
 
 func init() { register("C19", "exploration", runC19) }
+
+var fileMu [64]sync.Mutex
 
 var c19Special = []string{
 	"", "a", "name", "my-project", "a b", "a.b", "a=b", "#x", "[x]", "'", "''", "'''", "\"", "\"\"", "\"\"\"", "\\", "\\n", "\n", "\r", "\r\n", "\t",
@@ -78,9 +81,11 @@ func runC19(c *core.Ctx) {
 	c.Assume("strings are valid UTF-8 (TOML cannot represent other byte strings)")
 	dir := filepath.Join(c.Scratch, "c19")
 	os.MkdirAll(dir, 0o755)
-	file := filepath.Join(dir, "dawn.toml")
 
 	check := func(id, shape string, cfg *project.Config) {
+		file := filepath.Join(dir, fmt.Sprintf("dawn-%x.toml", hashStr(id)%64))
+		fileMu[hashStr(id)%64].Lock()
+		defer fileMu[hashStr(id)%64].Unlock()
 		if !c.Want(id) {
 			return
 		}
@@ -133,8 +138,8 @@ func runC19(c *core.Ctx) {
 	}
 	// 2. random configs.
 	n := c.N(20000, 2000000)
-	r := c.Rand("configs")
-	for i := 0; i < n; i++ {
+	core.Parallel(n, c.N(1, 14), func(i int) {
+		r := c.Rand(fmt.Sprintf("random/%d", i))
 		cfg := &project.Config{}
 		if r.IntN(5) != 0 {
 			cfg.Name = c19String(r)
@@ -152,6 +157,6 @@ func runC19(c *core.Ctx) {
 			}
 		}
 		check(fmt.Sprintf("random/%d", i), "random", cfg)
-	}
+	})
 	os.RemoveAll(dir)
 }
